@@ -321,6 +321,11 @@ func packGenesis(pops []population, cs capSetting, reverse bool) *fsm.GenesisSta
 			if pop.Comm[i]&2 != 0 {
 				v.Committees = append(v.Committees, commB(p))
 			}
+			// the order of a validator's committee list is the order its owner wrote (nothing sorts it):
+			// every other member of both committees lists them in descending order
+			if len(v.Committees) == 2 && (i+p)%2 == 1 {
+				v.Committees[0], v.Committees[1] = v.Committees[1], v.Committees[0]
+			}
 			switch pop.Status[i] {
 			case 1:
 				v.MaxPausedHeight = 5000
@@ -619,12 +624,12 @@ func histGenesis() *fsm.GenesisState {
 	both := []uint64{env.ChainID, c07lib.Chain2}
 	vals := []env.ValSpec{
 		{Key: 0, Stake: 9, Committees: both, OutputKey: -1},
-		{Key: 1, Stake: 5, Committees: both, OutputKey: -1},
+		{Key: 1, Stake: 5, Committees: []uint64{c07lib.Chain2, env.ChainID}, OutputKey: -1}, // listed in descending order
 		{Key: 2, Stake: 5, Committees: both, OutputKey: -1},
 		{Key: 3, Stake: 1, Committees: both, OutputKey: -1},
 		{Key: 4, Stake: 5, Committees: []uint64{env.ChainID}, OutputKey: -1},
 		{Key: 5, Stake: 5, Committees: both, OutputKey: -1, Delegate: true},
-		{Key: 6, Stake: 5, Committees: both, OutputKey: -1, Delegate: true},
+		{Key: 6, Stake: 5, Committees: []uint64{c07lib.Chain2, env.ChainID}, OutputKey: -1, Delegate: true},
 		{Key: 7, Stake: 9, Committees: []uint64{c07lib.Chain2}, OutputKey: -1, Delegate: true},
 	}
 	return env.NewGenesis(acc, vals, func(p *fsm.Params) {
@@ -664,7 +669,11 @@ func applyHistOp(c *env.Chain, op int) (bool, error) {
 	switch op {
 	case 0:
 	case 1:
-		spec.Txs = [][]byte{c07lib.Stake(10+int(h), 5, both, h, ts(h, 1))}
+		cs := both
+		if h%2 == 1 {
+			cs = []uint64{c07lib.Chain2, env.ChainID}
+		}
+		spec.Txs = [][]byte{c07lib.Stake(10+int(h), 5, cs, h, ts(h, 1))}
 	case 2:
 		k := env.BLS(20 + int(h))
 		spec.Txs = [][]byte{c07lib.MkTx(k, &fsm.MessageStake{PublicKey: k.PublicKey().Bytes(), Amount: 5, Committees: both, OutputAddress: env.Addr(k).Bytes(), Delegate: true, Compound: true}, c07lib.Fee, h, ts(h, 2), "")}
@@ -879,6 +888,17 @@ func histExec(path []int, verbose bool) (res Result) {
 			order = "desc"
 		}
 		res.Viols = append(res.Viols, rec.askAll(names[:i+1], path[:i+1], i == len(path)-1, order)...)
+		if i == len(path)-1 {
+			// the same questions with the live machine's caches warm (a reader that looked at the current
+			// parameters and validators first, as begin-block and the RPC handlers do): the answer for a past
+			// height must not depend on what the live machine has cached
+			_, _ = c.FSM.GetParams()
+			_, _ = c.FSM.GetParamsVal()
+			_, _ = c.FSM.GetCommitteeMembers(env.ChainID)
+			_, _ = c.FSM.GetDelegates(c07lib.Chain2)
+			res.Viols = append(res.Viols, rec.askAll(names[:i+1], path[:i+1], false, order)...)
+			c.FSM.Reset()
+		}
 	}
 	res.Viols = append(res.Viols, liveAfterApply(c, names, path)...)
 	k, e := env.StateKey(c.FSM)
